@@ -1,12 +1,16 @@
 /-
   C03 case generator: branching histories `vK := op(vI [, vJ])` over 1–3 root values.
-  For every history two cases are emitted:
-    hist       the harness runs it step by step (rel API / scoped evaluation) AND as one nested-let
-               program, re-reads every earlier value after every step; spec = "stable;prog=ok;" + the
-               canon of every value by the `V`-level semantics (`Spec.run`); model = the same read
-               through the heap model (`Impl.runAll`, repaired).
-    histshare  informational: do two live values share a backing array with spare capacity?
-               (model says "noshare", spec accepts anything: differences are counted as drift only)
+  Cases:
+    hist       the harness runs the history step by step (rel API / scoped evaluation) AND as one
+               nested-let program, re-reads every earlier value after every step; spec = "stable;prog=ok;"
+               + the canon of every value by the `V`-level semantics (`Spec.step`); model = the same read
+               through the heap model (`Impl.step`, repaired), which is stepped alongside the
+               specification while generating and also tells the generator what Go's representation
+               looks like (trailing hole cells, slice-backed or not).
+    histshare  (every 4th history) informational: do two live values share a backing array with spare
+               capacity?  (model says "noshare", spec accepts anything: counted as drift only)
+  thorough adds every history of length <= 4 over {with at end, without at end, with at front} on a
+  string, a byte array and an array, with every choice of operand (`exhaustive`).
   `loose` histories contain steps whose RESULT is known to be computed wrongly for reasons that
   belong to other properties (Bytes.Without truncation, bytes with holes, String.with's generic-set
   fall-back): those values and everything derived from them are TAINTED — printed as "_" by both
